@@ -190,6 +190,18 @@ def run(ctx: Ctx):
             items = [codes[:30], codes[30:]]
             ok, out, wire = rc.cat_property([S(x) for x in items])
             push({"k": "cat", "items": items, "ok": ok, "out": [L(x) for x in out] if ok else []}, {"items": items, "path": "cat-align"})
+    # Unicode hazards: code points special to str.strip / isprintable / splitlines / normalize / upper (vf/hazards.py)
+    from vf import hazards
+    for hs in hazards.strings():
+        codes = L(hs)
+        ctx.case(("hazard", hs), True)
+        push({"k": "enc", "s": codes, "out": L(rc.text_encode(hs))}, {"s": codes, "path": "enc-hazard"})
+        push({"k": "codec", "s": codes, "out": L(rc.text_codec(hs))}, {"s": codes, "path": "codec-hazard"})
+        ok, out, wire = rc.text_property(hs)
+        push({"k": "prop", "s": codes, "ok": ok, "out": L(out) if ok else []}, {"s": codes, "path": "prop-hazard"})
+        items = [codes, L("x") + codes]
+        ok, out, wire = rc.cat_property([S(x) for x in items])
+        push({"k": "cat", "items": items, "ok": ok, "out": [L(x) for x in out] if ok else []}, {"items": items, "path": "cat-hazard"})
     ctx.sample({"trace_event": ev[-1]})
 
     # ------------------------------------------------------------- VALIDATE
